@@ -127,3 +127,14 @@ for p in list(NOT_APPLICABLE):
         del NOT_APPLICABLE[p]
 for e in ENGINES:
     e['serves_properties'] = sorted(CHECKS)
+
+_c('C16', 'model_checking',
+   'exhaustive history search over session life-cycle actions with API probes, sweep and silence epilogues, on the real servers',
+   'Every enabled history of up to 4 (thorough 5) actions over 13 actions (accepted / rejected / WebSocket opens, ends by CLOSE, protocol error, disconnect(), socket close, vanishing clients incl. mid-upgrade, polls, saves, ticks) with up to three sessions is executed on both servers with client monitoring on; afterwards send/get_session/save_session/session()/transport() are probed with never-issued, rejected and disconnected ids (KeyError, no effect on others), user data isolation is checked, after two monitor sweeps the table must equal the reference live set, and after silence past the heartbeat bound it must be empty with one disconnect per session.',
+   'Default schedule; ping_interval=10/ping_timeout=1; target of an action is the first live session.',
+   'DESIGN.md 5 C16')
+for p in list(NOT_APPLICABLE):
+    if p in CHECKS:
+        del NOT_APPLICABLE[p]
+for e in ENGINES:
+    e['serves_properties'] = sorted(CHECKS)
